@@ -6,20 +6,20 @@ CLAIMED = {
  "C01": ("6/C01", "Refinement of every pointer flip against a sequential reference model over seeded schedules of 2-4 committers (threads on one handle with line-level pre-emption, separate handles, mixed), local and CAS-S3, fine/coarse/frozen clocks, targeted holds that force a stale base, and a committer process killed mid-commit. Sampling, not proof: a clean batch is evidence over the explored interleavings."),
  "C02": ("6/C02", "Every read's result is compared with the committed snapshots current during its flip interval, over seeded schedules of readers x writers; sampling of interleavings at storage-operation granularity."),
  "C03": ("6/C03", "Process death injected before each storage-level seam call of each operation type (quick samples k, thorough sweeps every k) on seeded histories; reopen, read, append and GC checked after each crash. Exhaustive only over the crash points of the sampled histories."),
- "C05": ("6/C05", "Seeded single-writer histories crossed with table-location spellings (absolute, relative, ./x, trailing slash, symlinked parent/root, names that are string prefixes of data/ and metadata/, S3 prefixes) and grace periods; each collection's deletions (from the event log) are checked against an independently computed reachable set plus open-transaction files, and old orphans must be gone. Sampling of histories; the spelling set is enumerated."),
- "C06": ("6/C06", "Seeded interleavings of one collector with 1-2 long-running writers at storage-operation granularity, with targeted holds at every collector phase boundary and file ages on both sides of the grace period; oracle on the final metadata. Judged only when grace exceeds the collection's virtual duration."),
- "C07": ("6/C07", "One untrusted input per run - exception at each storage call of the collection, each reachable metadata-plane file missing/truncated/noise, escaping listing entries at start/middle/end - on tables with retained snapshots, aged orphans, an open transaction and a dead mid-commit writer; quick samples, thorough sweeps every call and file."),
- "C08": ("6/C08", "Seeded interleavings of 2-3 committers on the CAS-S3 model with process pauses and request stalls of 0.5-200 s at chosen S3 requests (lease 60 s), clock skew, lost pointer-PUT responses, with the real CAS lock and with a grant-all lock; refinement at every flip plus a fence-read oracle."),
+ "C05": ("6/C05", "Seeded single-writer histories crossed with table-location spellings (absolute, relative, ./x, trailing slash, symlinked parent/root, names that are string prefixes of data/ and metadata/, S3 prefixes) and grace periods, with open transactions that wrote their file or registered a pre-built one (append_files, 0-2 h old) and committed pre-built files referenced under 6 path spellings; each collection's deletions (from the event log) are checked against an independently computed reachable set plus open-transaction files, and old orphans must be gone. Sampling of histories; the spelling set is enumerated."),
+ "C06": ("6/C06", "Seeded interleavings of one collector with 1-2 long-running writers (append_data, or append_files of a pre-built file already older than grace) at storage-operation granularity, with targeted holds at every collector phase boundary and file ages on both sides of the grace period; oracle on the final metadata. Judged only when grace exceeds the collection's virtual duration."),
+ "C07": ("6/C07", "One untrusted input per run - exception at each storage call of the collection, each reachable metadata-plane file missing/truncated/noise/replaced by the JSON document {}, escaping listing entries at start/middle/end - on tables with retained snapshots, aged orphans, an open transaction and a writer that died before or AT its pointer write (its left-over may drop retained snapshots); quick samples, thorough sweeps every call and file."),
+ "C08": ("6/C08", "Seeded interleavings of 2-3 committers on the CAS-S3 model with process pauses and request stalls of 0.5-200 s at chosen S3 requests (lease 60 s), clock skew, lost pointer-PUT responses, tables whose pointer object is lost, with the real CAS lock and with a grant-all lock; refinement at every flip plus a fence-read oracle."),
  "C09": ("6/C09", "Seeded single-writer histories under monotone, coarse and non-monotone clocks; after every step every retained snapshot is re-read by the independent reader and compared with its content at commit, lookups by id and by timestamp (at, around and between every retained timestamp) are compared with a commit-order oracle."),
  "C10": ("6/C10", "Histories with cleanly failed and CAS-losing commits, then the pointer replaced by each class of a byte-level grammar (13 classes), then a seeded subsequence of open/create/append/GC/reopen in a fresh process; the table must resolve to the latest committed version known from the flip log. Stale-pointer class is a recorded known finding."),
- "C11": ("6/C11", "Handle/history part only: multi-append histories through fresh and reused handles with 9 schema-argument variants, pre-built files with 8 schema variants and a fixed adversarial value pool; rejected => no trace, accepted => all later scans and per-column filtered scans equal the reference multiset. The value-class dimension is sampled from a fixed pool, not enumerated (input generation is not what simulation adds)."),
- "C14": ("6/C14", "Every file reachable from the current snapshot x 18 damage kinds x 15 read API/option combinations, plus an injected exception at each storage read call (S3: within/beyond the retry budget, permanent); quick samples (file, damage) pairs, thorough sweeps all of them for each sampled table."),
- "C15": ("6/C15", "Seeded single-writer histories incl. retention and metadata-log-bound properties; refinement of every flip against the reference model (parents, sequence numbers, carried entries, logs) plus state invariants after every step. The exhaustive-small-forest clause of the quantifier is input enumeration and is not covered."),
+ "C11": ("6/C11", "Handle/history part only: multi-append histories through fresh and reused handles with 9 schema-argument variants, pre-built files with 8 schema variants and a fixed adversarial value pool, plus schema-less tables whose appends pass their own (same or different) schema; rejected => no trace, accepted => all later scans and per-column filtered scans equal the reference multiset. The value-class dimension is sampled from a fixed pool, not enumerated (input generation is not what simulation adds)."),
+ "C14": ("6/C14", "Every file reachable from the current snapshot (incl. pre-built files registered without checksum) x 20 damage kinds x 15 read API/option combinations, plus an injected exception at each storage read call, optionally with a dead writer's never-committed version on disk (S3: within/beyond the retry budget, permanent); quick samples (file, damage) pairs, thorough sweeps all of them for each sampled table."),
+ "C15": ("6/C15", "Seeded single-writer histories (incl. pre-built files under two spellings) with retention and metadata-log-bound properties; refinement of every flip against the reference model (parents, sequence numbers, carried entries, logs) plus state invariants after every step. The exhaustive-small-forest clause of the quantifier is input enumeration and is not covered."),
  "C16": ("6/C16", "Local backend: durability shadow over every os-level call; a power loss is evaluated after every durable-state change and every rename/unlink of every operation type in pessimistic, pointer-eager and seeded-subset images; sampled images are materialised and read by the real library."),
- "C20": ("6/C20", "Differential execution of seeded storage-operation sequences and seek/read programs against the local backend (reference) and the S3 backend over the in-memory model, plus per-request fault bursts within/beyond the retry budget and permanent codes. The sequence-equivalence half is reference-model checking; the fault half is the simulation proper."),
+ "C20": ("6/C20", "Differential execution of seeded storage-operation sequences (existence queries on keys, directory names and trailing-slash names) and seek/read programs against the local backend (reference) and the S3 backend over the in-memory model, plus per-request fault bursts within/beyond the retry budget and permanent codes. The sequence-equivalence half is reference-model checking; the fault half is the simulation proper."),
  "C18": ("6/C18", "Seeded interleavings of 2-3 creators/openers/first appenders over five initial states on local and CAS-S3; identity, schema and data of an existing table and uniqueness of initialisation checked at every flip and at the end."),
- "C19": ("6/C19", "Seeded interleavings of 2-3 lock contenders: local FileLock cycles with holder death, local commits with a killed process, S3 CAS lock cycles with pauses/stalls around the lease and heartbeat actors, and the polling provider's two stated guarantees. Real multi-process stress is out of technique and not done."),
- "C04": ("6/C04", "One fault (exception before/after effect, disk full, KeyboardInterrupt/SystemExit before/after each storage call AND at sampled line events inside datashard code via sys.settrace) at each point of each commit type plus selected double faults, on local, CAS-S3 and non-CAS S3; outcome-indexed oracle (success=>post, ambiguous=>pre|post and files kept, storage error=>pre, interrupt=>pre|post); usability afterwards checked from the same and from a fresh handle."),
+ "C19": ("6/C19", "Seeded interleavings of 2-3 lock contenders: local FileLock cycles with holder death, local commits with a killed process, S3 CAS lock cycles with pauses/stalls around the lease and heartbeat actors (incl. a directed renewal-vs-takeover race), and the polling provider's two stated guarantees. Real multi-process stress is out of technique and not done."),
+ "C04": ("6/C04", "One fault (exception before/after effect incl. 412-after-effect on conditional PUTs, disk full, short write, KeyboardInterrupt/SystemExit before/after each storage call AND at sampled line events inside datashard code via sys.settrace) at each point of each commit type plus selected double faults, on local, CAS-S3 and non-CAS S3; outcome-indexed oracle (success=>post, ambiguous=>pre|post and files kept, storage error=>pre, interrupt=>pre|post); usability afterwards checked from the same and from a fresh handle, and - for KeyboardInterrupt - from the interrupted process itself when it survives."),
 }
 NA = [
  {"property_id": "C12", "reason": "pure function of (table content, filter, API option): no schedule, clock, fault or history in the statement; deciding it is input enumeration against an evaluator (property-based testing), not simulation"},
